@@ -343,15 +343,22 @@ func genValue(r *core.RNG) any {
 		return []any{"a", jsonInt(1), map[string]any{"z": nil}}
 	default:
 		// characters on which JSON encoders / escapers disagree
-		return core.Pick(r, []string{"ünïcode ✓", "line\u2028sep\u2029", "<script>&amp;</script>", "del\u007f", "nul\u0000byte", "\U0001F600\uFB33", "tab\tquote\"back\\slash/", "\ufeffbom"})
+		return core.Pick(r, exoticStrings)
 	}
 }
+
+// exoticStrings: characters on which JSON encoders / escapers disagree.
+var exoticStrings = []string{"ünïcode ✓", "line\u2028sep\u2029", "<script>&amp;</script>", "del\u007f", "nul\u0000byte", "\U0001F600\uFB33", "tab\tquote\"back\\slash/", "\ufeffbom",
+	"\u001funit", "a\u2029b", "\u0085nel"}
 
 func genOrigin(r *core.RNG) (any, bool) {
 	switch r.Intn(9) {
 	case 6:
 		return []any{"https://origin-a.example", "https://origin-b.example"}, true
 	case 7:
+		if rx := r.Stream("exotic-origin"); rx.Chance(1, 2) {
+			return core.Pick(rx, exoticStrings), true
+		}
 		return core.Pick(r, []string{"12345", "true", "a b c"}), true
 	case 8:
 		return []any{jsonInt(r.Intn(50)), "x", true}, true
